@@ -398,10 +398,24 @@ func runC10(c c10Case) (res c10Result) {
 			break
 		}
 	}
-	_ = closed
 	if target != nil {
 		res.Fired = target.FaultsFired() > 0
 		target.Disarm()
+	}
+	// (a, reply stream) if the connection is still open it must be in step: the
+	// next reply on it belongs to the next request, nothing is left over from the
+	// program (a request answered twice shows here)
+	if !closed {
+		o, err := cl.Do(wire.Cmd{Kind: wire.Version})
+		if err != nil {
+			var dump [1 << 16]byte
+			n := runtime.Stack(dump[:], true)
+			noteHang()
+			return fail("a", "after the program the connection is open but a version request is not answered within %v; goroutines:\n%s", cl.Timeout, dump[:n])
+		}
+		if o.Class != wire.Closed && (o.Class != wire.OK || len(o.Problems) > 0) {
+			return fail("a", "after the program the connection is open but out of step: a version request is answered with %s -- a reply left over from the program (some request was answered twice)", o)
+		}
 	}
 	for _, r := range st.L1.Log() {
 		if r.Conn == connL1 {
